@@ -48,7 +48,7 @@ def big_ops(rnd, nlines, reads):
     ops = [{"op": "new", "lines": lines, "term": rnd.randint(0, 1), "idx": idx, "src": src}]
     nit = 0
     for _ in range(reads):
-        k = rnd.choice(["get"] * 5 + ["iter_next"] * 8 + ["iter_new", "slice", "many", "len"])
+        k = rnd.choice(["get"] * 5 + ["iter_next"] * 8 + ["iter_new", "slice", "many", "len", "reopen"])
         if k == "get":
             ops.append({"op": k, "i": rnd.randint(-n, n - 1)})
         elif k == "iter_new" or (k == "iter_next" and nit == 0):
